@@ -140,6 +140,31 @@ func g1Adapter() *adapter {
 		R.ScalarMult(blsScalar(k, blsScalarBytes), p.(*bls.G1))
 		return &R
 	}
+	ad.observers = []observer{
+		{"Bytes", func(p, q pt) string {
+			w, err := parseG1(p.(*bls.G1).Bytes())
+			if err != nil {
+				return err.Error()
+			}
+			return wStr(w)
+		}, wantEnc},
+		{"BytesCompressed+SetBytes", func(p, q pt) string {
+			var U bls.G1
+			if err := U.SetBytes(p.(*bls.G1).BytesCompressed()); err != nil {
+				return err.Error()
+			}
+			return ad.enc(&U)
+		}, wantEnc},
+		{"IsIdentity", func(p, q pt) string { return fmt.Sprint(p.(*bls.G1).IsIdentity()) }, wantId},
+		{"IsEqual", func(p, q pt) string { return fmt.Sprint(p.(*bls.G1).IsEqual(q.(*bls.G1))) }, wantEq},
+		{"IsOnG", func(p, q pt) string { return fmt.Sprint(p.(*bls.G1).IsOnG1()) }, wantTrue},
+		{"String", func(p, q pt) string { _ = fmt.Sprint(p); return "true" }, wantTrue},
+		{"used-in-pairing", func(p, q pt) string {
+			_ = bls.Pair(p.(*bls.G1), bls.G2Generator())
+			_ = bls.ProdPair([]*bls.G1{p.(*bls.G1), q.(*bls.G1)}, []*bls.G2{bls.G2Generator(), bls.G2Generator()}, []*bls.Scalar{blsScalar(big.NewInt(2), 32), blsScalar(big.NewInt(3), 32)})
+			return "true"
+		}, wantTrue},
+	}
 	ad.isEqual = func(p, q pt) bool { return p.(*bls.G1).IsEqual(q.(*bls.G1)) }
 	ad.isIdentity = func(p pt) bool { return p.(*bls.G1).IsIdentity() }
 	ad.aliasOps = []aliasOp{
@@ -183,6 +208,30 @@ func g2Adapter() *adapter {
 		var R bls.G2
 		R.ScalarMult(blsScalar(k, blsScalarBytes), p.(*bls.G2))
 		return &R
+	}
+	ad.observers = []observer{
+		{"Bytes", func(p, q pt) string {
+			w, err := parseG2(p.(*bls.G2).Bytes())
+			if err != nil {
+				return err.Error()
+			}
+			return wStr(w)
+		}, wantEnc},
+		{"BytesCompressed+SetBytes", func(p, q pt) string {
+			var U bls.G2
+			if err := U.SetBytes(p.(*bls.G2).BytesCompressed()); err != nil {
+				return err.Error()
+			}
+			return ad.enc(&U)
+		}, wantEnc},
+		{"IsIdentity", func(p, q pt) string { return fmt.Sprint(p.(*bls.G2).IsIdentity()) }, wantId},
+		{"IsEqual", func(p, q pt) string { return fmt.Sprint(p.(*bls.G2).IsEqual(q.(*bls.G2))) }, wantEq},
+		{"IsOnG", func(p, q pt) string { return fmt.Sprint(p.(*bls.G2).IsOnG2()) }, wantTrue},
+		{"String", func(p, q pt) string { _ = fmt.Sprint(p); return "true" }, wantTrue},
+		{"used-in-pairing", func(p, q pt) string {
+			_ = bls.Pair(bls.G1Generator(), p.(*bls.G2))
+			return "true"
+		}, wantTrue},
 	}
 	ad.isEqual = func(p, q pt) bool { return p.(*bls.G2).IsEqual(q.(*bls.G2)) }
 	ad.isIdentity = func(p pt) bool { return p.(*bls.G2).IsIdentity() }
